@@ -19,6 +19,7 @@ pub mod verif;
 pub use breakpoint::BreakpointView;
 pub use breakpoint::BreakpointViewOwned;
 pub use breakpoint::CreateTransparentBreakpointRequest;
+pub use debugee::ExecutionStatus;
 pub use debugee::FrameInfo;
 pub use debugee::FunctionAssembly;
 pub use debugee::FunctionRange;
@@ -44,7 +45,7 @@ use crate::debugger::breakpoint::{Breakpoint, BreakpointRegistry, BrkptType, Uni
 use crate::debugger::debugee::dwarf::DwarfUnwinder;
 use crate::debugger::debugee::dwarf::unwind::Backtrace;
 use crate::debugger::debugee::tracer::TraceContext;
-use crate::debugger::debugee::{Debugee, ExecutionStatus, Location};
+use crate::debugger::debugee::{Debugee, Location};
 use crate::debugger::error::Error::{
     FrameNotFound, Hook, ProcessNotStarted, Ptrace, RegisterNameNotFound, UnwindNoContext,
 };
@@ -475,6 +476,11 @@ impl Debugger {
 
     pub fn process(&self) -> &Child<Installed> {
         &self.process
+    }
+
+    /// Return the execution status of the debugee: loaded but not started yet, in progress or exited.
+    pub fn execution_status(&self) -> ExecutionStatus {
+        self.debugee.execution_status()
     }
 
     pub fn detach(&mut self) -> Result<(), Error> {
